@@ -146,7 +146,9 @@ func (p *SNIProxy) ServeTCP(in net.Conn) error {
 	}
 
 	go cp(in, out, t.RxCounter)
-	go cp(out, in, t.TxCounter)
+	// read from the buffered reader: it may already hold bytes which the
+	// client sent together with the ClientHello
+	go cp(out, tlsReader, t.TxCounter)
 	err = <-errc
 	if err != nil && err != io.EOF {
 		log.Print("[WARN]: tcp+sni:  ", err)
